@@ -410,10 +410,12 @@ def run(chk, tier, seed, replay):
         # the processes also differ in their ENVIRONMENT (toolchain variables, locale, time zone) and working directory:
         # an expansion is a function of the derive input, not of where and under which wrapper the compiler runs
         penv = dict(os.environ)
-        for var in ("RUSTC_BOOTSTRAP", "RUSTUP_TOOLCHAIN", "CARGO", "RUSTC_WRAPPER", "CARGO_PKG_NAME", "CARGO_CRATE_NAME", "PROFILE", "DEBUG"):
+        for var in ("RUSTC_BOOTSTRAP", "RUSTUP_TOOLCHAIN", "CARGO", "RUSTC_WRAPPER", "CARGO_PKG_NAME", "CARGO_CRATE_NAME", "CARGO_BIN_NAME", "PROFILE", "DEBUG"):
             penv.pop(var, None)
         if pid % 4 == 1:
-            penv.update({"RUSTC_BOOTSTRAP": "1", "LANG": "tr_TR.UTF-8", "LC_ALL": "tr_TR.UTF-8"})
+            # (a target that happens to be called like the crate itself: a user's tests/derive_more.rs)
+            penv.update({"RUSTC_BOOTSTRAP": "1", "LANG": "tr_TR.UTF-8", "LC_ALL": "tr_TR.UTF-8", "CARGO_CRATE_NAME": "derive_more",
+                         "CARGO_PKG_NAME": "derive_more", "CARGO_BIN_NAME": "derive_more"})
         elif pid % 4 == 2:
             penv.update({"RUSTUP_TOOLCHAIN": "nightly-x86_64-unknown-linux-gnu", "TZ": "Pacific/Kiritimati", "CARGO_PKG_NAME": "other", "PROFILE": "release"})
         elif pid % 4 == 3:
